@@ -190,7 +190,11 @@ class Message(BaseMessage):
 
         This is the reverse of str(msg).
         """
-        return cl(**str2msg(text))
+        try:
+            return cl(**str2msg(text))
+        except LookupError as le:
+            # Unknown message type (LookupError) or empty text (IndexError).
+            raise ValueError(f'invalid message string {text!r}') from le
 
     def __len__(self):
         if self.type == 'sysex':
